@@ -443,9 +443,12 @@ class Built(object):
         self.order = {}
 
 
-def linear_extension(rng, steps):
-    """steps: list of (name, deps, fn); random order respecting deps."""
+def linear_extension(rng, steps, first=()):
+    """steps: list of (name, deps, fn); random order respecting deps; names in `first` are taken as early as their deps allow."""
     remaining = list(steps)
+    if first:
+        remaining.sort(key=lambda st: 0 if st[0] in first else 1)
+        rng = None
     done = set()
     order = []
     while remaining:
@@ -472,7 +475,8 @@ def _build(spec, model=None, holder=None, order_seed=None, codes=None, ckey_map=
           max_iter=3000, unused_ext=False, tol=None, order_perm=None, codes_after_first_country=False,
            query_zone=False, interleave_model=False, region_default_currency=False, run_via_steps=False,
            mutate_returned_lists=False, dup_country_attempts=False, overwrite_currency_member=False,
-           log_info_after_every_country=False, extra_rule=None, fresh_currency_strings=False):
+           log_info_after_every_country=False, extra_rule=None, fresh_currency_strings=False,
+           declare_first=()):
     """Build (and solve) the model described by spec with the REAL classes.
 
     order_seed: None = canonical declaration order; int = a random linear extension per country.
@@ -645,7 +649,7 @@ def _build(spec, model=None, holder=None, order_seed=None, codes=None, ckey_map=
                 ordered = [by_name[n] for n in order_perm[ck]]
                 assert len(ordered) == len(steps)
             else:
-                ordered = linear_extension(rng, steps)
+                ordered = linear_extension(rng, steps, first=declare_first)
             b.order.setdefault(ck, [st[0] for st in ordered])
             for name, deps, fn in ordered:
                 fn()
